@@ -8,7 +8,7 @@ usage: gen_ptrmodels.py [part ...]      (default: all parts)
 Prints one line per function `ptrgen <part> <function> ok|FAILED <reason>`; exit status = number of failures.
 A part with a failing function still gets a file containing the functions that did translate (the tie lemmas of
 the missing ones then fail to compile, which is the intended loud failure)."""
-import os, sys
+import os, re, sys
 sys.path.insert(0, os.path.dirname(os.path.abspath(__file__)))
 import cxx2heap
 from cxx2heap import functor_idiom
@@ -38,7 +38,52 @@ PAIRING = dict(
     functions=[("_merge", "g_merge"), ("_collapse", "g_collapse"), ("push", "g_push"), ("pop", "g_pop"), ("remove", "g_remove")],
 )
 
-PARTS = {"pairing": PAIRING}
+HM = r"frg::hash_map<unsigned long long, long long, hg_hash, hg_alloc>"
+HASHMAP = dict(
+    name="hashmap",
+    # Key / Value are two builtin integer types different from every type the header itself uses (size_t, unsigned int), so
+    # that keys, values and sizes are told apart by their C++ type; get<KeyCompatible> is instantiated explicitly
+    tu=("#include <frg/hash_map.hpp>\n"
+        "struct hg_hash { unsigned long operator()(const unsigned long long &k) const; };\n"
+        "struct hg_alloc { void *allocate(size_t); void free(void *); void deallocate(void *, size_t); };\n"
+        "template class " + HM + ";\n"
+        "template long long *" + HM + "::get<unsigned long long>(const unsigned long long &);\n"),
+    filter="frg::hash_map", class_name="hash_map",
+    imports=("From Coq Require Import List NArith Arith Bool.\n"
+             "From FV Require Import HashMap.HashMapModel HashMap.HashMapPtr PtrGen.PtrCtl PtrGen.Bind_hashmap.\n"
+             "Import ListNotations."),
+    section_vars=[("hash", "N -> N")],
+    state_ty="pstate", pres="pres", ok="POk", bind="bind",
+    assert_fail="PAssertStop", null_fail="PNullDeref", fuel_fail="POutOfFuel", unreachable_fail="PUB",
+    types={"bool": ("bool", "bool"), "void": ("void", "unit"), "size_t": ("sz", "nat"), "unsigned long": ("sz", "nat"),
+           "unsigned int": ("u32", "nat"), "unsigned long long": ("key", "N"), "unsigned long long &": ("key", "N"),
+           "long long": ("val", "N"), "long long &&": ("val", "N"), "long long *": ("vptr", "option nat"),
+           "optional<long long>": ("oval", "option N")},
+    type_rx=[(r"^(const )?" + re.escape(HM) + r"::chain \*( const)?$", "ptr"), (r"^(const )?chain \*$", "ptr"),
+             (r"^" + re.escape(HM) + r"::chain \*\*$", "tab"),
+             (r"^" + re.escape(HM) + r"::iterator( &)?$", "iter"),
+             (r"^const long long &$", "val"), (r"^long long &$", "vref")],
+    gallina={"ptr": "option nat", "tab": "tabv", "iter": "iter", "vref": "option nat"},
+    ptr_types=["ptr"], is_null={"ptr": "is_null"}, eqb={"ptr": "ptr_eqb", "sz": "Nat.eqb", "key": "N.eqb"},
+    fields={}, members={"_size": dict(rd="rd_size", wr="wr_size", ty="sz"), "_capacity": dict(rd="rd_cap", wr="wr_cap", ty="sz"),
+                        "_table": dict(rd="rd_table", wr="wr_table", ty="tab")},
+    ptr_fields={"next": dict(rd="rd_next", wr="wr_next_s", ty="ptr", of="ptr"), "key": dict(rd="rd_key", ty="key", of="ptr"),
+                "val": dict(rd="rd_val", ty="val", of="ptr")},
+    arrays={"tab": dict(elem="ptr", get="tab_get", set="tab_set")}, index_types=["sz", "u32"], linear=["tab"],
+    binops={("<", "sz", "sz"): ("Nat.ltb", "bool"), (">=", "sz", "sz"): ("sz_ge", "bool"), (">", "sz", "sz"): ("sz_gt", "bool"),
+            ("*", "sz", "sz"): ("Nat.mul", "sz")},
+    casts={("IntegralCast", "sz", "u32"): "u32n", ("IntegralCast", "u32", "sz"): "", ("IntegralToBoolean", "sz", "bool"): "sz_nonzero"},
+    incdec={("++", "sz"): "S", ("--", "sz"): "pred"}, lit_fmt={"sz": "%d%%nat"}, zero={"val": "0%N"},
+    classes={"iterator": dict(this_locals=[("bucket", "sz"), ("item", "ptr")], outer="map", self_ty="iter")},
+    idioms=[cxx2heap.hashmap_idioms], lvalue_idioms=[cxx2heap.tuple_get_lvalue, cxx2heap.move_lvalue],
+    functions=[("rehash", "g_rehash"), ("insert", "g_insert", "void (const unsigned long long &, const long long &)"),
+               ("insert", "g_insert_move", "void (const unsigned long long &, long long &&)"),
+               ("operator[]", "g_index"), ("get", "g_get"), ("end", "g_end", HM + "::iterator ()"),
+               ("find", "g_find", HM + "::iterator (const unsigned long long &)"), ("begin", "g_begin"),
+               ("remove", "g_remove"), ("~hash_map", "g_destroy"), ("operator++", "g_incr", None, "iterator")],
+)
+
+PARTS = {"pairing": PAIRING, "hashmap": HASHMAP}
 
 
 def gen_part(part):
